@@ -153,3 +153,45 @@ Section Region.
       destruct (length _); [exact H0 | lia].
   Qed.
 End Region.
+
+(* ---- grouping of the matches into regions ---- *)
+Section Group.
+  Variable context : Z.
+  Notation group := (Html.group).
+
+  (* the regions partition the list of matches: nothing lost, nothing twice,
+     order kept; no region is empty *)
+  Lemma group_flat : forall hs cur acc,
+    concat (group hs cur acc) = concat (rev acc) ++ rev cur ++ hs.
+  Proof.
+    induction hs as [|h hs IH]; intros cur acc; cbn [Html.group].
+    - destruct cur as [|c cur']; [simpl; rewrite app_nil_r; reflexivity|].
+      cbn [rev]. rewrite concat_app. cbn [concat]. rewrite !app_nil_r. reflexivity.
+    - destruct cur as [|c cur'].
+      + rewrite IH. reflexivity.
+      + destruct (max_endlin (c :: cur') <=? h_beglin h).
+        * rewrite IH. cbn [rev]. rewrite concat_app. cbn [concat rev app].
+          rewrite app_nil_r, <- !app_assoc. reflexivity.
+        * rewrite IH. cbn [rev]. rewrite <- !app_assoc. reflexivity.
+  Qed.
+
+  Theorem group_partition hs : concat (group hs [] []) = hs.
+  Proof. rewrite group_flat. reflexivity. Qed.
+
+  Lemma group_nonempty : forall hs cur acc,
+    Forall (fun r => r <> []) acc ->
+    Forall (fun r => r <> []) (group hs cur acc).
+  Proof.
+    induction hs as [|h hs IH]; intros cur acc Ha; cbn [Html.group].
+    - destruct cur as [|c cur']; [apply Forall_rev; exact Ha|].
+      apply Forall_rev. constructor; [|exact Ha].
+      intros E. apply (f_equal (@length _)) in E. rewrite rev_length in E. discriminate.
+    - destruct cur as [|c cur']; [apply IH; exact Ha|].
+      destruct (max_endlin (c :: cur') <=? h_beglin h); apply IH; [|exact Ha].
+      constructor; [|exact Ha].
+      intros E. apply (f_equal (@length _)) in E. rewrite rev_length in E. discriminate.
+  Qed.
+
+  Theorem group_regions_nonempty hs : Forall (fun r => r <> []) (group hs [] []).
+  Proof. apply group_nonempty. constructor. Qed.
+End Group.
